@@ -435,7 +435,7 @@ def to_plain(e, inv, bound=None, allow_params=True, sort_pos=False):
     if k in ("n", "d"):
         return t
     if k == "r":
-        return t
+        raise Unmapped("reserved word in symbol position", t)
     if k == "k":
         return ":" + t
     if k == "y":
